@@ -114,6 +114,14 @@ func (m *C01) evalScript(rq *mRequest) (oracletypes.ResolveStatus, []byte) {
 		return oracletypes.RESOLVE_STATUS_SUCCESS, []byte("test")
 	case scriptEmpty:
 		return oracletypes.RESOLVE_STATUS_SUCCESS, []byte{}
+	case scriptProbe:
+		// asking about a validator index outside 0..ask_count-1 is an error that ends the script: FAILURE, never a halt
+		d, ok := probeDelta(rq.Msg.Calldata)
+		idx := int64(len(rq.Chosen)) + d
+		if ok && idx >= 0 && idx < int64(len(rq.Chosen)) {
+			return oracletypes.RESOLVE_STATUS_SUCCESS, []byte("test")
+		}
+		return oracletypes.RESOLVE_STATUS_FAILURE, []byte{}
 	case scriptEcho:
 		var in testdata.Wasm4Input
 		obi.MustDecode(rq.Msg.Calldata, &in)
